@@ -57,9 +57,8 @@ def childStarted (s : SOFO) (cs : ChildSpec) (pid : Nat) : SOFO × Res :=
 
 /-- supSOFO.childTerminated -/
 def childTerminated (s0 : SOFO) (name pid : Nat) (reason : Reason) (now : Int) : SOFO × Res :=
-  let s := { s0 with pids := s0.pids.filter (·.1 ≠ pid) }
+  let s := { s0 with pids := s0.pids.filter (·.1 ≠ pid), wait := sdel pid s0.wait }
   if s.shutdown then
-    let s := { s with wait := sdel pid s.wait }
     if s.wait.length > 0 then (s, .ok { act := .terminateChildren })
     else (s, .ok { act := .terminate, reason := s.shutdownReason })
   else
